@@ -89,6 +89,10 @@ def variants(tier, half):
         # reaches exactly the caller that was processing it, and the other sender's event is
         # processed normally or dropped with the queue - never stranded, never run twice
         out.append(((("a",), ("b",)), "fault"))
+        # one sender fires an event while the other attaches a listener (callbacks.py is traced
+        # as well): afterwards the listener takes part in every group of every event, and during
+        # the race in every group at most once
+        out.append(((("a",), ()), "listener-race"))
         # two machines of one class, each driven by its own thread: whatever the class keeps
         # (descriptors, registries, caches) must not let one instance's trigger reach the other
         out.append(((("a",), ("a",)), "two-machines"))
@@ -146,6 +150,37 @@ def check_results(env, calls, idents):
             return (f"O8 result: the call sending {c['tag']} processed {first} first (then "
                     f"{[t for t in dict.fromkeys(r.tag for r in mine)][1:]}) but returned {res!r}")
     return None
+
+
+def lrace_machine():
+    if "lrace" not in _B:
+        import dataclasses
+        m = ring3(asyn=False, provs=("sm", "L0", "L1"))
+        _B["lrace"] = build(dataclasses.replace(m, listeners=()))
+    return _B["lrace"]
+
+
+def check_lrace(env, sm, errors, deadlock):
+    if deadlock:
+        return deadlock
+    if errors:
+        t, e = errors[0]
+        return f"sender {t} raised {type(e).__name__}: {e}"
+    for tag in ("S0.0", "post1", "post2", "post3"):
+        own = [r.cid[1] for r in env.flat if r.tag == tag and r.cid[0] == "sm"]
+        lis = [r.cid[1] for r in env.flat if r.tag == tag and r.cid[0] == "L1"]
+        if own != PATTERN_A:
+            return f"L1 event {tag}: the machine's own callbacks ran as {own}"
+        if tag == "S0.0":
+            if len(set(lis)) != len(lis) or not set(lis) <= set(PATTERN_A):
+                return (f"L2 the listener attached while {tag} was running received {lis}: "
+                        f"every group at most once")
+        elif lis != PATTERN_A:
+            return (f"L3 event {tag} (sent after the listener had been attached): the listener "
+                    f"received {lis}, expected {PATTERN_A}")
+    if queue_len(sm) or lock_held(sm):
+        return f"O4 stranded: queue {queue_len(sm)}, lock {lock_held(sm)}"
+    return None, ("lrace", tuple(r.cid[1] for r in env.flat if r.tag == "S0.0" and r.cid[0] == "L1"))
 
 
 def check_two(env, sms, events, tags, errors, deadlock):
@@ -507,6 +542,13 @@ class _AsyncOnly:
 def run_threads(ch, events, nested, files, only_lines=None, stateful=False):
     gated = nested == "gated"
     built = machine(False, gated)
+    lrace = nested == "listener-race"
+    if lrace:
+        import os
+        from ..cli_env import repo_dir
+        built = lrace_machine()
+        files = set(files) | {os.path.join(os.path.realpath(repo_dir()), "statemachine",
+                                           "callbacks.py")}
     calls = []
     with tsched.patched_lock():
         anon = nested == "anon"
@@ -530,6 +572,10 @@ def run_threads(ch, events, nested, files, only_lines=None, stateful=False):
         tags = [[("same" if anon else f"S{i}.{k}") for k in range(len(evs))]
                 for i, evs in enumerate(events)]
         sm = impl.sm
+        if lrace:
+            # an earlier late attachment: the groups of the transition about to fire have not
+            # run since their membership last changed
+            sm.add_listener(built.listener_cls["L0"]())
         if stateful and (queue_len(sm) is None or lock_held(sm) is None):
             # the hashed state would miss the queue / the lock: pruning would be unsound
             raise InternalsChanged("engine queue/lock are not where the pinned tree keeps them")
@@ -544,6 +590,8 @@ def run_threads(ch, events, nested, files, only_lines=None, stateful=False):
                 idents[i] = threading.get_ident()
                 if nested == "late-async-listener" and i == 1:
                     sm.add_listener(_AsyncOnly())
+                if lrace and i == 1:
+                    sm.add_listener(built.listener_cls["L1"]())
                 for k, ev in enumerate(events[i]):
                     progress[i] = k
                     env.seq += 1
@@ -576,6 +624,9 @@ def run_threads(ch, events, nested, files, only_lines=None, stateful=False):
             s = tsched.Sched(ch, files, only_lines=only_lines,
                              state_fn=state_fn if stateful else None)
             s.run([body(i) for i in range(len(events))])
+            if lrace and not s.errors and not s.deadlock:
+                for k in (1, 2, 3):      # back to s0 and through the raced transition again
+                    sm.send("a", tag=f"post{k}")
         finally:
             CUR.env = None
     if anon:
@@ -585,13 +636,15 @@ def run_threads(ch, events, nested, files, only_lines=None, stateful=False):
             if c["ret"] is None:
                 c["ret"] = float("inf")
         r = check_gated(env, sm, calls, s.errors, s.deadlock)
+    elif lrace:
+        r = check_lrace(env, sm, s.errors, s.deadlock)
     elif two:
         r = check_two(env, sms, events, tags, s.errors, s.deadlock)
     elif fault:
         r = check_fault(env, sm, calls, s.errors, s.deadlock, idents)
     else:
         r = check(env, sm, tags, s.errors, s.deadlock)
-    if isinstance(r, tuple) and r[0] is None and not anon and not gated and not fault and not two:
+    if isinstance(r, tuple) and r[0] is None and not anon and not gated and not fault and not two and not lrace:
         # (on the gated machine an ignored event leaves no callback behind: which event a call
         # processed first cannot be observed there)
         r8 = check_results(env, calls, idents) or check_fifo(env, calls, r[1])
@@ -674,6 +727,8 @@ def explore_variant(res, half, vi, variant, tier, roots=None, root_run=True):
             bound = 2 if (n == 2 and total_sends == 2 and nested in (False, "anon")) else 1
         else:
             bound = {2: 3 if (total_sends == 2 and nested is not True) else 2, 3: 2, 4: 1}[n]
+        if nested == "listener-race":
+            bound = 1        # every line of callbacks.py is a scheduling point here
         runs = [(None, lambda ch: run_threads(ch, events, nested, files)[:2])]
     for (pa, fn) in runs:
         st = {"msg": None, "choices": None, "orders": set()}
@@ -721,7 +776,7 @@ def explore_variant(res, half, vi, variant, tier, roots=None, root_run=True):
 def _cat(msg):
     if "O4K" in msg:
         return "event-enqueued-while-failing-drainer-holds-the-lock-is-stranded"
-    for key in ("NONDETERMINISTIC", "O1", "O2", "O3", "O4", "O5", "O7", "O8", "O9", "M1", "M2", "M3", "F1", "F2", "F3", "F4",
+    for key in ("NONDETERMINISTIC", "O1", "O2", "O3", "O4", "O5", "O7", "O8", "O9", "M1", "M2", "M3", "L1", "L2", "L3", "F1", "F2", "F3", "F4",
                 "F5", "deadlock", "hang", "raised",
                 "never finished", "suspended", "pending"):
         if key in msg:
@@ -771,8 +826,8 @@ def run(tier, seed):
     # explicit-state, unbounded preemptions
     for vi, (events, nested) in enumerate(variants(tier, "threads")):
         n, total_sends = len(events), sum(map(len, events))
-        if nested == "two-machines":
-            continue      # the hashed state describes one machine only
+        if nested in ("two-machines", "listener-race"):
+            continue      # the hashed state describes one machine / no listener registry
         if n == 2 and (tier == "thorough" or (total_sends == 2 and nested in (False, "anon"))):
             blocks.append(("stateful-line", tier, vi, None))
         if n == 2 or (n == 3 and (tier == "thorough" or nested == "anon")):
